@@ -17,7 +17,8 @@ if [ -n "$demo" ]; then
   cp "$demo" "$S/$pkg/zz_demo_test.go"
   if (cd "$S" && go test -vet=off -count=1 -run 'Demo' "./$pkg/" >"$S/.d0" 2>&1); then echo "demo-without-change: pass"; else echo "demo-without-change: FAIL"; tail -3 "$S/.d0"; fi
 fi
-(cd "$S" && git init -q . 2>/dev/null; git -C "$S" apply "$D/patch.diff") || { echo PATCH-FAILED; exit 3; }
+# patch.rebased.diff: the same change re-expressed against the current /repo, kept when a later fix: commit touched the same lines
+(cd "$S" && git init -q . 2>/dev/null; git -C "$S" apply "$D/patch.diff" 2>/dev/null || { [ -f "$D/patch.rebased.diff" ] && git -C "$S" apply "$D/patch.rebased.diff"; }) || { echo PATCH-FAILED; exit 3; }
 rm -rf "$S/.git"
 if [ -n "$demo" ]; then
   if (cd "$S" && go test -vet=off -count=1 -run 'Demo' "./$pkg/" >"$S/.d1" 2>&1); then echo "demo-with-change: pass (NOT a valid seed?)"; else echo "demo-with-change: fail (as intended)"; fi
